@@ -16,6 +16,9 @@ from engine.codec import Symbols, pmul, psym, pconst, padd, pscale
 NOLIM = None
 
 
+EXPLODED = 1e7
+
+
 class Timeout(Exception):
     pass
 
@@ -253,6 +256,12 @@ def to_trace_run(run, defn):
     ne = len(defn.events())
     if run["raised"]:
         stage = "gridding" if (run["rec"] is not None and run["rec"]["raw"] is not None) else "jump"
+        # the properties quantify over BOUNDED-RATE models: a generated model whose population has left every bound
+        # before the failure (e.g. a birth rate quadratic in the state: finite-time blow-up, numpy then refuses the
+        # Poisson mean) is outside them
+        att = run["rec"]["attempts"] if run["rec"] is not None else []
+        if stage == "jump" and any(np.max(np.abs(a["xb"])) > EXPLODED for a in att[-3:]):
+            return None, None, "population beyond %g before the failure: not a bounded-rate model" % EXPLODED
         return None, {"what": "solve_stochast raised / did not return", "detail": run["raised"], "stage": stage}, None
     rec = run["rec"]
     if rec is None or run["nruns"] != 1:
